@@ -29,6 +29,12 @@ def classify(case):
                                       ("absent-or-wrong" if q.get("method") else "?"))
     if st == 407 and not any(v.startswith("Basic") for v in hdr.get("Proxy-Authenticate", [])):
         return "407-without-challenge"
+    tf = (case.get("spec") or {}).get("time_frame")
+    clk = case.get("clock")
+    if tf and clk:
+        inside = any(e["Day"] == clk[0] and e["Start"] <= clk[1] < e["End"] for e in tf)
+        if (st == 451 and inside) or (st != 451 and not inside):
+            return "time-frame-verdict-wrong-for-the-clock"
     if o.get("from_peer") or (st == 200 and q.get("method") == "CONNECT") or (o.get("dials") and st not in (407, 403, 451)):
         if "zone" in ht:
             return "zone-qualified-literal-forwarded-under-deny"
